@@ -72,13 +72,13 @@ def parseOp (s : String) : Op :=
   if s == "-" then .none
   else if s.startsWith "c" then .cmp (toNat (s.drop 1).toString)
   else match splitOn (s.drop 1).toString ":" with
-    | [id, a, b] => .user (toNat id) (unhx a) (unhx b)
+    | [id, a, b] => .user (if s.startsWith "v" then 1000 + toNat id else toNat id) (unhx a) (unhx b)   -- v… = slice-backed operator type
     | _ => .none
 
 def Op.str : Op → String
   | .none => "-"
   | .cmp c => s!"c{c}"
-  | .user id a b => s!"u{id}:{hx a}:{hx b}"
+  | .user id a b => if id ≥ 1000 then s!"v{id - 1000}:{hx a}:{hx b}" else s!"u{id}:{hx a}:{hx b}"
 
 def parseFld (s : String) : Fld :=
   match splitOn s ":" with
